@@ -98,3 +98,8 @@ package client
 //@   noframe
 //@   requires c != nil && c.Log != nil
 //@   loop 0 invariant capof(buf) == 98 && offsetof(buf) == 0 && capof(oob) == 64 && offsetof(oob) == 0
+
+// x is the raw source/destination host address of a received SCION packet (any of the lengths the header allows),
+// y a configured address: the comparison must not crash on x and must report "different" unless both are the same IP.
+//@ func compareIPs
+//@   ensures lengths: result == 0 ==> (len(x) == 4 || len(x) == 16) && (len(y) == 4 || len(y) == 16)
